@@ -21,10 +21,10 @@ P = {
  "C05": ("differential testing of two code paths (upstream cfg(fuzzing) entry points: shortcut vs general path) plus a width-sweep validity check",
          "Exploration: wrap_single_line vs wrap_single_line_slow_path and fill vs fill_slow_path must agree on every generated (line, options, prior-line) case, widths concentrated between display width and byte length; and a paragraph that fits yields exactly indent+trimmed paragraph at every width of a sweep.",
          "Needs the existing upstream guard --cfg fuzzing (no source hook added). 'Every splitter' is read as the built-in non-inserting splitters for the fits-unchanged half (see DESIGN C05 note). Cases matching the open known finding KF-C05-1 (an escape sequence containing a fragment boundary) are excluded before the assertion and counted in excluded_known; see known_findings.json."),
- "C06": ("property-based testing: arbitrary finite f64 fragments/line widths/usize penalties against a partition validity predicate using pointer identity of the returned slices",
-         "Exploration: lines returned by both algorithms must be non-empty contiguous sub-slices whose start pointers and lengths tile the input exactly, in order; empty input gives one empty line.",
+ "C06": ("property-based testing: arbitrary finite f64 fragments/line widths/usize penalties, word-shaped fragments through the WrapAlgorithm::wrap dispatcher, and generated call histories (several calls on one thread, some ending in Err) against a partition validity predicate using pointer identity of the returned slices",
+         "Exploration: lines returned by both algorithms (free functions and, for word-shaped fragments, WrapAlgorithm::{FirstFit,OptimalFit}.wrap over Words) must be non-empty contiguous sub-slices whose start pointers and lengths tile the input exactly, in order; empty input gives one empty line; every call of a generated 2..4-call history is judged.",
          "Err(OverflowError) results are counted, not judged. Trusts proptest."),
- "C07": ("property-based testing against a reference model: 10-line greedy state machine on exactly-representable numbers; text-level greedy-maximality validity DP",
+ "C07": ("property-based testing against a reference model: 10-line greedy state machine on exactly-representable numbers (wrap_first_fit and, for word-shaped fragments with integer width lists of 1..6 entries, WrapAlgorithm::FirstFit.wrap); text-level greedy-maximality validity DP",
          "Exploration: line lengths from wrap_first_fit must equal those of a reference machine written from the statement (generated numbers are dyadic so that f64 evaluation order is irrelevant, exact-fit boundaries generated on purpose); at the text level some fragment partition rendering to the output must satisfy 'fits when added' and 'next first fragment did not fit'.",
          "Fragment level restricted to non-negative dyadic values < 2^40. Text level uses the library's word pipeline as the fragment source."),
  "C08": ("property-based testing: prefix validity predicate plus a metamorphic relation over indent strings of equal display width and emptiness",
